@@ -1,4 +1,7 @@
-"""E9 -- effect analysis: every store / mutating call in a function, classified by receiver."""
+"""E9 -- effect analysis: every store / mutating call in a function, classified by receiver; freshness of locals
+(flow-insensitive ``fresh_locals``, flow-sensitive ``fresh_at``, ``returns_fresh`` for analysed helpers); and ``Flow``:
+reaching definitions / value flow of locals and self-attributes on the CFG (leaves with path conditions, resolution of
+named temporaries, aliases)."""
 import ast
 
 from .core import norm
